@@ -41,7 +41,7 @@ Lemma visit_field_eq a kids s f h v p fl :
      forall asw h v p fl, walk_tree c asw h v p fl = (pwalk c asw h v p fl, false)) ->
   shape_ok G a (s, f) = true ->
   visit_field G V enter a (mapkids close kids) s f h v p fl =
-  (pwalk_children V (field_children G a (mapkids pwalk kids) fl f) h v p, false).
+  (pwalk_children V (field_children G a (mapkids pwalk kids) fl s f) h v p, false).
 Proof.
   intros HC OK. apply shape_ok_fdesc in OK. destruct OK as [d [D M]]. cbn [fst snd] in D, M.
   unfold visit_field, field_children. rewrite D, M, !kids_of_map.
